@@ -32,6 +32,7 @@ def c4(ctx):
     from ..rules import serial
     serial.str_is_serialize(ctx)
     mutate.mutate_order(ctx, failure_clauses=False)
+    mutate.save_sequence(ctx, failure=False)
 
 
 def c5(ctx):
